@@ -69,30 +69,9 @@ namespace c17
     typedef Geometry::ConformalMesh<Shape_> MeshType; typedef Trafo::Standard::Mapping<MeshType> TrafoType;
     constexpr int dim = Shape_::dimension;
     MeshSpec ms = gen_mesh<Shape_>(t, o.max_cells);
-    int mesh_perm = t.pick({ 6, 3, 1, 1, 1, 1 });
-    // domain fact (not C17's subject, bycatch noted in findings/C17.md): the algebraic Cuthill-McKee mesh permutations
-    // (MeshPermutation::create_cmk -> CuthillMcKee::compute with RootType::minimum_degree on an 'injectify' graph that
-    // keeps duplicates and self-loops) abort with "No root node found!" as soon as every unprocessed cell has
-    // degree-with-duplicates >= num_cells + 1, e.g. a 2-cell line; cmk permutations are only requested when no cell
-    // reaches that degree
-    if(mesh_perm == 2 || mesh_perm == 3)
-    {
-      Adj a0(ms);
-      for(Index cl = 0; cl < ms.nc() && mesh_perm != 0; ++cl)
-      {
-        std::size_t deg = 0; for(int l = 0; l < ms.nvc; ++l) deg += a0.cells_at_vert[ms.cells[cl * Index(ms.nvc) + Index(l)]].size();
-        if(deg >= std::size_t(ms.nc()) + 1u) mesh_perm = 0;
-      }
-    }
+    int mesh_perm = choose_perm(t, ms);
     auto mesh = build_mesh<Shape_>(ms);
-    if(mesh_perm != 0)
-    {
-      mesh->create_permutation(perm_of(mesh_perm));
-      // cell/vertex numbers changed: read the effective numbering back (subset, adjacency and checksums use it)
-      const auto& idx = mesh->template get_index_set<dim, 0>(); const auto& vtx = mesh->get_vertex_set();
-      for(Index cl = 0; cl < ms.nc(); ++cl) for(int l = 0; l < ms.nvc; ++l) ms.cells[cl * Index(ms.nvc) + Index(l)] = idx[cl][l];
-      for(Index v = 0; v < ms.nv(); ++v) for(int d = 0; d < dim; ++d) ms.xy[v * Index(dim) + Index(d)] = vtx[v][d];
-    }
+    apply_perm(*mesh, ms, mesh_perm);
     ms.desc.set("mesh_perm", perm_name(mesh_perm));
     Subset sub = gen_subset(t, ms);
     Cfg cfg = gen_cfg(t, Index(sub.cells.size()), o.threaded_bias); cfg.mesh_perm = mesh_perm;
